@@ -276,6 +276,21 @@ func (c *ShipConnection) setHandshakeTimerType(timerType timeoutTimerType) {
 	c.handshakeTimerType = timerType
 }
 
+// the last received waiting value is written by the message handler and read by the timer goroutine
+func (c *ShipConnection) setLastReceivedWaitingValue(value time.Duration) {
+	c.handshakeTimerMux.Lock()
+	defer c.handshakeTimerMux.Unlock()
+
+	c.lastReceivedWaitingValue = value
+}
+
+func (c *ShipConnection) getLastReceivedWaitingValue() time.Duration {
+	c.handshakeTimerMux.Lock()
+	defer c.handshakeTimerMux.Unlock()
+
+	return c.lastReceivedWaitingValue
+}
+
 func (c *ShipConnection) getHandshakeTimerType() timeoutTimerType {
 	c.handshakeTimerMux.Lock()
 	defer c.handshakeTimerMux.Unlock()
